@@ -37,8 +37,11 @@ func (p *Prog) funcValueRoots(v ssa.Value, yieldArgs map[*ssa.Function][]ssa.Val
 			}
 			return false
 		case *ssa.Parameter:
-			// a func-typed parameter of a closure (yield): use the structurally collected arguments when available
-			if _, isSig := y.Type().Underlying().(*types.Signature); isSig && y.Parent().Parent() != nil {
+			// a func-typed parameter (yield) of a closure, or of a function/method all of whose call sites are known:
+			// use the structurally collected arguments when available
+			_, isSig := y.Type().Underlying().(*types.Signature)
+			_, known := yieldArgs[y.Parent()]
+			if isSig && (y.Parent().Parent() != nil || known) {
 				if yieldArgs == nil {
 					complete = false
 					return false
@@ -139,7 +142,7 @@ func (p *Prog) refine() *refined {
 	}
 	for _, s := range sites {
 		for _, g := range phaseA[s.ci] {
-			if !callersOK[g] || g.Parent() == nil {
+			if !callersOK[g] {
 				continue
 			}
 			// func-typed arguments handed to g at this site (the yield function)
@@ -151,6 +154,86 @@ func (p *Prog) refine() *refined {
 			if _, ok := yieldArgs[g]; !ok {
 				yieldArgs[g] = nil
 			}
+		}
+	}
+	// functions and methods that take a function value and are only ever called statically (an iterator written as a
+	// method, reached through its bound-method wrapper): their call sites are the static calls
+	staticArgs := map[*ssa.Function][]ssa.Value{}
+	addressTaken := map[*ssa.Function]bool{}
+	for _, fn := range p.RepoFuncs {
+		instrsOf(fn, func(in ssa.Instruction) {
+			var callee *ssa.Function
+			if ci, ok := in.(ssa.CallInstruction); ok {
+				callee = ci.Common().StaticCallee()
+				if callee != nil && p.IsRepoFunc(callee) {
+					for _, a := range ci.Common().Args {
+						if _, isSig := a.Type().Underlying().(*types.Signature); isSig {
+							staticArgs[callee] = append(staticArgs[callee], a)
+						}
+					}
+				}
+			}
+			for _, op := range in.Operands(nil) {
+				if f, ok := (*op).(*ssa.Function); ok && f != nil {
+					if ci, isCall := in.(ssa.CallInstruction); isCall && ci.Common().Value == ssa.Value(f) {
+						continue
+					}
+					if _, isMC := in.(*ssa.MakeClosure); isMC {
+						continue
+					}
+					addressTaken[f] = true
+				}
+			}
+		})
+	}
+	for g, args := range staticArgs {
+		if addressTaken[g] || g.Parent() != nil {
+			continue
+		}
+		if _, dyn := yieldArgs[g]; dyn {
+			continue
+		}
+		// every call-graph edge into g is one of the static calls
+		onlyStatic := true
+		if n := p.VTA.Nodes[g]; n != nil {
+			for _, e := range n.In {
+				if e.Site == nil || e.Site.Common().StaticCallee() != g {
+					onlyStatic = false
+				}
+			}
+		}
+		if onlyStatic {
+			yieldArgs[g] = args
+		}
+	}
+	// an iterator closure that no repo site calls (it is only handed to library code such as maps.Collect) receives only
+	// yield functions created outside the repository: its yield calls have no repo callee. VTA over-approximates the
+	// callers, so "no repo caller in VTA" is safe to rely on.
+	for _, g := range p.RepoFuncs {
+		if _, have := yieldArgs[g]; have || len(g.Blocks) == 0 {
+			continue
+		}
+		hasFuncParam := false
+		for _, prm := range g.Params {
+			if _, isSig := prm.Type().Underlying().(*types.Signature); isSig {
+				hasFuncParam = true
+			}
+		}
+		if !hasFuncParam || g.Parent() == nil {
+			continue
+		}
+		n := p.VTA.Nodes[g]
+		if n == nil {
+			continue
+		}
+		repoCaller := false
+		for _, e := range n.In {
+			if p.IsRepoFunc(e.Caller.Func) {
+				repoCaller = true
+			}
+		}
+		if !repoCaller {
+			yieldArgs[g] = nil
 		}
 	}
 	// a closure that is also called from non-repo code (slices.Sorted(seq), maps.Collect(seq)) receives foreign yield
